@@ -104,6 +104,12 @@ func genC14(tier string) []*Scenario {
 				add(&MapScen{Rel: RelLate, NKeys: 3, Init: []int{0, 1, 1}, Table: TGrowArmed, Bound: 2, Threads: [][]MIn{{on(opStore, 0)}, {on(b, 1)}, {on(opLoad, 2)}}, ExpectGrow: true})
 			}
 		}
+		for _, second := range []MIn{opClear, on(opStore, 1)} {
+			for _, w := range []MIn{on(opStore, 1), on(opDelete, 1), opClear} {
+				add(&MapScen{Rel: RelSD, NKeys: 2, Init: []int{1, 1}, Table: TPlain, Threads: [][]MIn{{opClear, second}, {w}}})
+				add(&MapScen{Rel: RelSD, NKeys: 2, Init: []int{0, 1}, Table: TGrowArmed, Threads: [][]MIn{{on(opStore, 0), opClear}, {w}}, ExpectGrow: true})
+			}
+		}
 		for _, m := range ms {
 			m.Prop, m.Classes = "C14", ORace
 			sc := m.Scenario()
